@@ -235,7 +235,7 @@ def n5_run(carve):
                 for how in ("inner", "left", "full"):
                     if how == "full" and pname not in ("eq", "eq_swapped", "two_eq", "expr_key"):
                         continue
-                    for variant in ("plain", "right_hidden", "left_filtered"):
+                    for variant in ("plain", "right_hidden", "left_filtered", "right_const", "right_const_alias", "left_const", "right_filtered"):
                         if "join_helper" in carve and False:
                             continue
                         n += 1
@@ -249,8 +249,33 @@ def n5_run(carve):
                                     continue
                                 ll = l >> pdt.filter(l.h > 1)
                                 want = [w for w in want if w[2] is not None and w[2] > 1]
+                            extra_cols, extra_want = [], None
+                            if variant in ("right_const", "right_const_alias"):
+                                # a constant column of the null-extended side must be NULL on unmatched rows
+                                rr = r >> pdt.mutate(cc=5)
+                                if variant == "right_const_alias":
+                                    rr = rr >> pdt.alias("rc") >> pdt.rename({"k": "k", "y": "y", "g": "g"})
+                                    continue  # after alias() the original references of r are out of scope; covered by C16/X6
+                                extra_cols = [rr.cc]
+                                want = [w + ((5,) if w[3] is not None or w[4] is not None or w[5] is not None else (None,)) for w in want]
+                            if variant == "left_const":
+                                ll = l >> pdt.mutate(cc=7)
+                                extra_cols = [ll.cc]
+                                want = [w + ((7,) if w[2] is not None else (None,)) for w in want]
+                            if variant == "right_filtered":
+                                if how == "full":
+                                    continue
+                                rr = r >> pdt.filter(r.g != 2)
+                                lrows2 = lrows
+                                want = []
+                                for a in lrows:
+                                    m = [b for b in rrows if b[2] != 2 and py(a, b)]
+                                    want += [a + b for b in m]
+                                    if not m and how == "left":
+                                        want.append(a + (None, None, None))
                             j = ll >> pdt.join(rr, on(l, r), how)
-                            out = j >> pdt.mutate(lk__=l.k, lx__=l.x, lh__=l.h, rk__=r.k, ry__=r.y, rg__=r.g) >> pdt.select(*[pdt.C[c] for c in ("lk__", "lx__", "lh__", "rk__", "ry__", "rg__")]) >> pdt.export(pdt.Polars())
+                            names = ["lk__", "lx__", "lh__", "rk__", "ry__", "rg__"] + (["cc__"] if extra_cols else [])
+                            out = j >> pdt.mutate(lk__=l.k, lx__=l.x, lh__=l.h, rk__=r.k, ry__=r.y, rg__=r.g, **({"cc__": extra_cols[0]} if extra_cols else {})) >> pdt.select(*[pdt.C[c] for c in names]) >> pdt.export(pdt.Polars())
                             got = sorted(out.rows(), key=key)
                             if got != sorted(want, key=key):
                                 miss = [w for w in sorted(want, key=key) if w not in got][:3]
@@ -280,7 +305,7 @@ def obligations(tier):
                                       functions=f, bounded=f"table widths {ls.w} and {rs.w} (names symbolic, collisions explored)", tags=("cross_backend",),
                                       carveouts={"join_helper_names": "no column is named __INDEX__ or <left column>_right"}, replayer=make_replayer(ls, rs, label, fn, "polars" if backend == "polars" else "sqlite")))
     obs.append(Obligation("C06/N5/native_matrix", "N5", "exact row combinations of inner / left / full joins natively", n5_run, functions=fns_p + [fi(H.sql_backend.SqlImpl.compile_ast)],
-                          bounded="7 predicate shapes x 3 join kinds x 3 operand variants x 2 backends on one pair of 6-row tables with nulls, duplicates and unmatched rows"))
+                          bounded="7 predicate shapes x 3 join kinds x 6 operand variants (plain, hidden right key, filtered left / right, constant column on either side) x 2 backends on one pair of 6-row tables with nulls, duplicates and unmatched rows"))
     return obs
 
 
